@@ -1,121 +1,5 @@
-//! `rfmon <Cxx> --tier quick|thorough --seed N --out FILE [--only S:I]
-//!        [--threads N] [--profile NAME] [--scale X] [-v]`
-//!
-//! Runs one monitor, prints a human summary, writes the machine-readable
-//! result to FILE. Exit 0 whenever the monitor ran to completion (the
-//! verdict is in the result file and decided by ../check); any other exit
-//! is a harness failure and maps to INCONCLUSIVE.
-
-use rfmon::{mon, Cfg, Report, Tier};
-use std::time::Instant;
+//! rfmon: see rftk::cli for the command line.
 
 fn main() {
-    let args: Vec<String> = std::env::args().collect();
-    if args.len() < 2 {
-        eprintln!("usage: rfmon <Cxx> --tier T --seed S --out F [--only s:i]");
-        std::process::exit(64);
-    }
-    let prop = args[1].clone();
-    let mut cfg = Cfg {
-        prop: prop.clone(),
-        tier: Tier::Quick,
-        seed: 1,
-        threads: std::thread::available_parallelism().map(|n| n.get()).unwrap_or(4).min(16),
-        only: None,
-        profile: "chk".into(),
-        scale: 1.0,
-        verbose: false,
-    };
-    let mut out = None;
-    let mut i = 2;
-    while i < args.len() {
-        let a = args[i].as_str();
-        let mut val = || {
-            i += 1;
-            args.get(i).cloned().unwrap_or_else(|| {
-                eprintln!("missing value for {a}");
-                std::process::exit(64)
-            })
-        };
-        match a {
-            "--tier" => {
-                cfg.tier = match val().as_str() {
-                    "quick" => Tier::Quick,
-                    "thorough" => Tier::Thorough,
-                    t => {
-                        eprintln!("bad tier {t}");
-                        std::process::exit(64)
-                    }
-                }
-            }
-            "--seed" => cfg.seed = val().parse().expect("seed"),
-            "--threads" => cfg.threads = val().parse().expect("threads"),
-            "--profile" => cfg.profile = val(),
-            "--scale" => cfg.scale = val().parse().expect("scale"),
-            "--out" => out = Some(val()),
-            "--only" => {
-                let v = val();
-                let (s, ix) = v.split_once(':').expect("--only stream:index");
-                cfg.only = Some((s.parse().expect("stream"), ix.parse().expect("index")));
-            }
-            "-v" => cfg.verbose = true,
-            _ => {
-                eprintln!("unknown argument {a}");
-                std::process::exit(64)
-            }
-        }
-        i += 1;
-    }
-    rfmon::install_panic_hook();
-    let Some(run) = mon::lookup(&prop) else {
-        eprintln!("no monitor for {prop}");
-        std::process::exit(64);
-    };
-    let t0 = Instant::now();
-    let mut rep = Report::new();
-    run(&cfg, &mut rep);
-    let wall = t0.elapsed().as_secs_f64();
-
-    println!(
-        "[{prop} {} seed={} profile={}] cases={} distinct_nontrivial>={} violations={} wall={:.1}s",
-        if cfg.quick() { "quick" } else { "thorough" },
-        cfg.seed,
-        cfg.profile,
-        rep.evaluations,
-        rep.distinct_nontrivial(),
-        rep.n_violations(),
-        wall
-    );
-    for (k, w) in &rep.worst {
-        println!("  worst {k}: observed {:.3e} (tolerance {:.3e}) {}", w.obs, w.tol, w.at);
-    }
-    if cfg.verbose {
-        for (k, v) in &rep.classes {
-            println!("  class {k}: {v}");
-        }
-        for (k, v) in &rep.skipped {
-            println!("  skipped {k}: {v}");
-        }
-    }
-    for (sig, a) in &rep.violations {
-        println!("  violation signature={sig} count={}", a.count);
-        for v in a.firsts.iter().take(2) {
-            println!("    at stream={} index={}: {}", v.stream, v.idx, v.detail);
-        }
-    }
-    for (k, (failed, d)) in &rep.pins {
-        if *failed {
-            println!("  pin {k}: FAILS: {d}");
-        }
-    }
-    for f in rep.unmet_floors() {
-        println!("  unmet floor: {f}");
-    }
-    for n in &rep.notes {
-        println!("  note: {n}");
-    }
-    let j = rep.to_json(&cfg, wall).to_string();
-    if let Some(o) = out {
-        std::fs::write(&o, j).expect("write result");
-    }
+    rftk::cli::run("rfmon", rfmon::mon::lookup);
 }
